@@ -40,7 +40,8 @@ theorem aw_checkUtf8 (raw : Bytes) : AllocW 0 A B (checkUtf8 raw) := by
   · exact aw_pure _
   · exact aw_fail _
 
-theorem aw_readRaw (hA : 1 ≤ A) (n : Nat) : AllocW 0 A B (readRaw n) := aw_takeN0 hA n _
+theorem aw_readRaw (hA : 1 ≤ A) (n : Nat) : AllocW 0 A B (readRaw n) := by
+  rw [readRaw_eq_takeN]; exact aw_takeN0 hA n _
 
 theorem aw_readString (hA : 1 ≤ A) : AllocW 2 A B readString := by
   unfold readString
@@ -80,7 +81,7 @@ theorem takeN_length (n : Nat) (k : String) (s : St) (raw : Bytes) (s' : St) (h 
 theorem aw_readUuid (hA : 1 ≤ A) : AllocW 0 A B readUuid := by
   unfold readUuid
   have := aw_bindP (w1 := 0) (w2 := 0) (A := A) (B := B) (fun raw : Bytes => raw.length = 16) hA (aw_readRaw hA 16)
-    (fun s a s' h => (takeN_length 16 "few" s a s' h).1)
+    (fun s a s' h => (takeN_length 16 "few" s a s' (by rw [← readRaw_eq_takeN]; exact h)).1)
     (f := fun raw => if raw.length = 16 then pure raw else panicAt "read_uuid: try_into().unwrap()")
     (fun raw hr => by simp only [hr, if_true]; exact aw_pure raw)
   simpa using this
@@ -362,15 +363,24 @@ theorem aw2_deserPrepared (f : Features) : AW 0 (deserPrepared f) := by
   · exact aw_fail _
   · exact aw_pure _
 
-theorem aw2_deserRawRows (f : Features) : AW 0 (deserRawRows f) := by
+theorem aw2_deserRawRowsHdr (f : Features) : AW 0 (deserRawRowsHdr f) := by
   have hA : 1 ≤ 2 := by omega
-  unfold deserRawRows
+  unfold deserRawRowsHdr
   refine aw_bind0 hA (aw_tag _ (aw_zero (aw_readInt hA))) (fun flags => ?_)
   simp only []
   split
   · exact aw_fail _
   · exact aw_bind0 hA (aw_tag _ (aw_zero (aw_readIntLength hA))) (fun cc => aw_bind0 hA
       (aw_optRead hA _ (aw_tag _ (aw_zero (aw_readBytes hA)))) (fun _ => aw_pure _))
+
+/-- `frame.to_bytes()` (= `slice_ref`) after the header reads never panics. -/
+theorem aw2_deserRawRows (f : Features) : AW 0 (deserRawRows f) := by
+  have hA : 1 ≤ 2 := by omega
+  unfold deserRawRows
+  have := aw_trackedBind (w2 := 0) hA (aw2_deserRawRowsHdr f)
+    (f := fun r => sliceRef r.2 >>= fun _ => (pure r.1 : M RawRows))
+    (fun r h => by rw [h]; exact aw_bind0 hA aw_sliceRef_true (fun _ => aw_pure _))
+  simpa using this
 
 theorem aw2_parsedMeta (r : RawRows) (p : MetaPresence) : AW 0 (parsedMeta r p) := by
   have hA : 1 ≤ 2 := by omega
@@ -397,8 +407,12 @@ theorem aw2_metaFor (r : RawRows) (cached : Option ResultMeta) : AW 0 (metaFor r
 theorem aw2_deserMetadata (r : RawRows) (cached : Option ResultMeta) : AW 0 (deserMetadata r cached) := by
   have hA : 1 ≤ 2 := by omega
   unfold deserMetadata
-  exact aw_bind0 hA (aw2_metaFor r cached) (fun _ => aw_bind0 hA (aw_tag _ (aw_zero (aw_readIntLength hA)))
-    (fun _ => aw_bind0 hA aw_takeRest (fun _ => aw_pure _)))
+  refine aw_bind0 hA (aw2_metaFor r cached) (fun sm => ?_)
+  have hrc : AW 0 (tag "rowscount" readIntLength) := aw_tag _ (aw_zero (aw_readIntLength hA))
+  have := aw_trackedBind (w1 := 0) (w2 := 0) hA hrc
+    (f := fun rc => sliceRef rc.2 >>= fun _ => takeRest >>= fun raw => (pure ⟨sm.1, sm.2, rc.1, raw⟩ : M DeserRows))
+    (fun rc h => by rw [h]; exact aw_bind0 hA aw_sliceRef_true (fun _ => aw_bind0 hA aw_takeRest (fun _ => aw_pure _)))
+  simpa using this
 
 theorem aw2_readStringList : AW 0 readStringList :=
   aw_zero (aw_readStringList (A := 2) (B := U16) (by omega))
@@ -577,7 +591,7 @@ theorem aw2_deserResponse (f : Features) (op : Nat) : AW 0 (deserResponse f op) 
 theorem aw_readTrace (hA : 1 ≤ A) : AllocW 0 A B readTrace := by
   intro s
   unfold readTrace
-  simp only [bind_def, onCopy, tag_def, readUuid, readRaw]
+  simp only [bind_def, onCopy, tag_def, readUuid, readRaw_eq_takeN]
   cases ht : takeN 16 "few" s with
   | mk o s1 =>
     cases o with
